@@ -364,7 +364,8 @@ class IMAPConnection:
             else:
                 prev_cmd = current_command.set(cmd)
                 try:
-                    if isinstance(cmd, AuthenticateCommand):
+                    if isinstance(cmd, AuthenticateCommand) \
+                            and not state.authenticated:
                         creds = await self.authenticate(state, cmd.mech_name)
                         response = await self._exec(
                             state.do_authenticate(cmd, creds))
